@@ -143,6 +143,21 @@ CLAIMED["C03"] = dict(
    ref="DESIGN.md §4 C03")
 
 
+# clauses added in the fourth session (after blind seeds were missed, or after defects reported by seeding sub-agents were repaired)
+ADD = {
+ "C01": "Also: the closed forms on top of the tables -- days of a month, weekday of the 1st of a month, days of a year -- are decoded as the small tables they stand for (look-ups replaced by the table coordinates, every entry compared with the definition: RF2-closed).",
+ "C02": "Also (RF11-order): every value read of the lazily filled, overloaded month / day slots of the print record in the printers comes after the fill-in chain of its own specifier, so no specifier's text depends on the specifiers printed before it.",
+ "C03": "Also (RF2-closed): the period lengths the carry loops look up, where they are closed forms over a tiny domain -- days of a month, occurrences of a weekday in a month (4 x 7 x 7 entries), business days of a month (4 x 7), days of a year -- are decoded over that whole domain and compared with the definition entry by entry.",
+ "C07": "Also (RF2-closed): the number of Monday-Friday days of a month, a 4 x 7 table (days of the month x weekday of the 1st) spelled as a closed form in __get_bdays, is decoded over its whole domain and compared with the definition; the closed forms that take an unbounded day count are not folded (that would be sampling).",
+ "C12": "Also: zif_utc_time returns t - x only for an x obtained as offs(t - estimate) in an iteration that ends on two equal estimates, zif_local_time is t + offs(t) (RF-fixpoint); the zeroed cache of a fresh zone is the empty range, so narrowing the search with its transition number requires an emptiness test, and the whole time line [MIN, MAX) is handed out (and cached) only for a zone without transitions (RF7c-valid) -- the rule that guards the repaired defect `dconv --zone Europe/Berlin 1960-06-01T00:00:00 2012-06-01T00:00:00` = +01:00 for the second instant.",
+ "C13": "Also (RF7c-valid): the cache's initial, zeroed value is the empty range; __offs narrows the search with the cached transition number only under an emptiness test and __find_zrng hands out the whole time line only for a zone without transitions, so a miss in a wrongly narrowed search can no longer be cached and answer every later lookup (repaired defect 0a7164a).",
+ "C14": "Also: the leap correction field overlays the upper bits of the duration's value slot (checked against the record layout); the producer of leap-aware differences stores it on every path after the slot (RF10-overlay, guards the repaired defect `ddiff 2012-03-01T00:00:10 2012-03-01T00:00:00 -f %rS` = -11); TAI / GPS labelled stamps are turned into UTC with the leap count looked up at the UTC instant (RF-fixpoint, shared with C12).",
+ "C16": "Also (RF-fresh): a looked-up period length used by a rounding is the length of the period the result is in -- between the look-up and its use no path writes a field the look-up read (a month length taken before the year moves on).",
+}
+for _k, _v in ADD.items():
+    CLAIMED[_k]["text"] += " " + _v
+
+
 def main():
     props = [json.loads(l)["id"] for l in open(os.path.join(HERE, "properties.jsonl"))]
     checks = []
